@@ -2148,6 +2148,7 @@ def _register():
 
 
 _register()
+from . import py2lean_mgh  # noqa: E402,F401   mGH engine (key "mgh"): registers itself here (py2lean_mgh.register)
 
 # the sweep engine (PersLandscapeExact.compute_landscape) registers its file the same way
 SWEEP_KEYS = set()
